@@ -111,11 +111,11 @@ def sweep(ctx, pid, n_scripts, cfgs_per_script, judge_sat=True, judge_unsat=True
     gen_kwargs = gen_kwargs or {}
     scripts = []
     for i in range(n_scripts):
-        rng = random.Random(ctx.seed * 104729 + i * 31 + sum(map(ord, pid)))
+        rng = random.Random(ctx.seed * 104729 + i * 31 + sum(map(ord, pid)) + gen_kwargs.get("stream", 0) * 7919)
         inc = rng.random() < gen_kwargs.get("p_incremental", 0.35)
         text, meta = scriptgen.gen_script(rng, incremental=inc, logics=logics, big=rng.random() < gen_kwargs.get("p_big", 0.2),
                                           queries=("model",), named=False, nassert=gen_kwargs.get("nassert"),
-                                          depth=gen_kwargs.get("depth"))
+                                          depth=gen_kwargs.get("depth"), p_special=gen_kwargs.get("p_special", 0.3))
         names = list(CONFIGS) if all_configs else ["default"] + rng.sample([c for c in CONFIGS if c != "default"], cfgs_per_script - 1)
         scripts.append((text, meta, names))
     jobs, index = [], []
